@@ -214,9 +214,25 @@ def parse(file_path):
 
 
 def write_hash_list(hash_list: MHLHashList, file_path: str):
-    """creates a new mhl file and writes the xml to disk
+    """creates a new mhl file and writes the xml to disk, leaving nothing behind if that fails"""
 
-    we write the file step by step to reduce memory load while writing large files
+    directory_path = os.path.dirname(file_path)
+    directory_existed = os.path.isdir(directory_path)
+    try:
+        _write_hash_list(hash_list, file_path)
+    except BaseException:
+        # e.g. a file name or comment that XML cannot carry: remove the unfinished temporary file and a history folder
+        # that was created for this very manifest, otherwise the folder stays behind without a chain file
+        temp_file_path = os.path.join(directory_path, "ascmhl_hashlist.tmp")
+        if os.path.lexists(temp_file_path):
+            os.remove(temp_file_path)
+        if not directory_existed and os.path.isdir(directory_path) and not os.listdir(directory_path):
+            os.rmdir(directory_path)
+        raise
+
+
+def _write_hash_list(hash_list: MHLHashList, file_path: str):
+    """we write the file step by step to reduce memory load while writing large files
     e.g. we create xml objects only for single elemnts like one media hash element and write it to disk
     before creating the next one"""
 
